@@ -30,7 +30,7 @@ KINDS = ['mv', 'number', 'npscalar', 'list', 'tuple', 'callable', 'nested-callab
 def floors(tier):
     f = {'distinct_nontrivial': 1500 if tier == 'quick' else 250000, 'index_cases': 500, 'setitem_cases': 250,
          'setitem_postconditions_evaluated': 250, 'operand_kind_cases': 600, 'noncommuting_sequence_or_callable_left': 150,
-         'reflected_dispatch_cases': 200, 'container_ndarray': 150, 'container_list': 150, 'container_tuple': 50, 'callable_operand_cases': 300}
+         'reflected_dispatch_cases': 200, 'container_ndarray': 150, 'container_list': 150, 'container_tuple': 50, 'callable_operand_cases': 300, 'post_update_probes_compared': 300}
     for sym in INFIX:
         f['infix_' + sym] = 40
     return f
@@ -233,6 +233,12 @@ def setitem_case(ctx, alg, cfg, name):
         V = gen.mv_from(alg, kx, newvals)
     else:
         V = newvals
+    # warm whatever the object may cache about itself, so that a value remembered across the in-place update is visible afterwards
+    probes = {'normsq': lambda m: m.normsq(), 'norm': lambda m: m.norm(), 'reverse': lambda m: ~m, 'square': lambda m: m * m,
+              'grades': lambda m: m.grade(*m.grades[:1]), 'asfullmv': lambda m: m.asfullmv(), 'neg': lambda m: -m, 'normalized': lambda m: m.normalized()}
+    used = rng.sample(sorted(probes), 3)
+    for pn in used:
+        ctx.guarded(20, probes[pn], X)
     before = len(SET_PROBLEMS)
     n0 = contracts.EVALS.get('MultiVector.__setitem__', 0)
     st, out = ctx.guarded(20, X.__setitem__, idx, V)
@@ -247,6 +253,20 @@ def setitem_case(ctx, alg, cfg, name):
     ctx.case(cid)
     probs = SET_PROBLEMS[before:]
     probs = [p for p in probs if p[0] != 'harness could not model the assignment']
+    # results computed on the updated object equal results on a fresh object holding the same coefficients
+    import numpy as np
+    vals_now = X.values()
+    fresh = _from(alg, kx, np.array(vals_now, dtype=float).copy()) if container == 'ndarray' else gen.mv_from(alg, kx, [np.array(v, dtype=float).copy() for v in vals_now])
+    for pn in used:
+        s1, r1 = ctx.guarded(20, probes[pn], X)
+        s2, r2 = ctx.guarded(20, probes[pn], fresh)
+        if s1 == 'ok' and s2 == 'ok':
+            ctx.count('post_update_probes_compared')
+            g1, g2 = mv_dict(r1), mv_dict(r2)
+            if any(not np.all(np.isfinite(np.asarray(v, dtype=complex))) for v in list(g1.values()) + list(g2.values())):
+                continue
+            if elem_diff(g1, g2):
+                probs.append([f'{pn}() after the update differs from {pn}() of a fresh multivector with the same coefficients (stale value)'])
     if probs:
         ctx.violation('assignment through a multivector touched the wrong entries', cid, config=cfg, keys=list(kx), shape=list(shape),
                       container=container, index=idx_repr(idx), assigned_as=how, problems=probs[:6])
@@ -326,7 +346,7 @@ def kinds_case(ctx, alg, iso, cfg, name):
             break
     else:
         return
-    number = rng.choice((2, -3, Fr(1, 2), 0.5))
+    number = rng.choice((2, -3, Fr(1, 2), 0.5, 0, 0.0, 1, -1))
     left, lelems, lshape = wrap_operand(rng, lk, a, a2, number)
     right, relems, rshape = wrap_operand(rng, rk, b, b2, number)
     cid = [name, 'kinds', sym, lk, rk, [list(a.keys()), list(b.keys())], [[str(v) for v in a.values()], [str(v) for v in b.values()]]]
